@@ -34,6 +34,28 @@ fn find_closing_paren(s: &str) -> Option<usize> {
     None
 }
 
+/// Copy of `tokens` in which the contents of string literals are blanked out byte for byte, so
+/// that keywords (`min`, `max`, `email`, ...) are only found outside messages while byte
+/// offsets stay valid for the original text
+fn mask_string_literals(tokens: &str) -> String {
+    let mut masked = String::with_capacity(tokens.len());
+    let mut in_string = false;
+    let mut escaped = false;
+    for ch in tokens.chars() {
+        if !in_string {
+            in_string = ch == '"';
+            masked.push(ch);
+        } else if !escaped && ch == '"' {
+            in_string = false;
+            masked.push(ch);
+        } else {
+            escaped = !escaped && ch == '\\';
+            masked.extend(std::iter::repeat(' ').take(ch.len_utf8()));
+        }
+    }
+    masked
+}
+
 impl ValidatorParser {
     pub fn new() -> Self {
         Self
@@ -58,12 +80,14 @@ impl ValidatorParser {
                 if let Ok(tokens) = syn::parse2::<syn::MetaList>(attr.meta.to_token_stream()) {
                     // Convert tokens to string and do basic parsing for now
                     let tokens_str = tokens.tokens.to_string();
+                    // Validator names are looked up outside string literals (messages)
+                    let masked = mask_string_literals(&tokens_str);
 
-                    if tokens_str.contains("email") {
+                    if masked.contains("email") {
                         validator_attrs.email = true;
                     }
 
-                    if tokens_str.contains("url") {
+                    if masked.contains("url") {
                         validator_attrs.url = true;
                     }
 
@@ -89,7 +113,9 @@ impl ValidatorParser {
 
     /// Parse length constraints from validator tokens
     fn parse_length_from_tokens(&self, tokens: &str) -> Option<LengthConstraint> {
-        if !tokens.contains("length") {
+        // Keywords and numbers are parsed from a copy with blanked-out string literals
+        let masked = mask_string_literals(tokens);
+        if !masked.contains("length") {
             return None;
         }
 
@@ -100,11 +126,12 @@ impl ValidatorParser {
         };
 
         // Simple regex-like parsing for length(min = X, max = Y, message = "...")
-        if let Some(start) = tokens.find("length") {
-            if let Some(paren_start) = tokens[start..].find('(') {
-                let after_paren = &tokens[start + paren_start + 1..];
-                if let Some(paren_end) = find_closing_paren(after_paren) {
-                    let content = &after_paren[..paren_end];
+        if let Some(start) = masked.find("length") {
+            if let Some(paren_start) = masked[start..].find('(') {
+                let open = start + paren_start + 1;
+                if let Some(paren_end) = find_closing_paren(&masked[open..]) {
+                    let content = &masked[open..open + paren_end];
+                    let original_content = &tokens[open..open + paren_end];
 
                     // Parse min = value
                     if let Some(min_pos) = content.find("min") {
@@ -143,7 +170,7 @@ impl ValidatorParser {
                     }
 
                     // Parse message = "..."
-                    constraint.message = self.parse_message_from_content(content);
+                    constraint.message = self.parse_message_from_content(original_content);
                 }
             }
         }
@@ -153,7 +180,9 @@ impl ValidatorParser {
 
     /// Parse range constraints from validator tokens
     fn parse_range_from_tokens(&self, tokens: &str) -> Option<RangeConstraint> {
-        if !tokens.contains("range") {
+        // Keywords and numbers are parsed from a copy with blanked-out string literals
+        let masked = mask_string_literals(tokens);
+        if !masked.contains("range") {
             return None;
         }
 
@@ -164,11 +193,12 @@ impl ValidatorParser {
         };
 
         // Simple regex-like parsing for range(min = X, max = Y, message = "...")
-        if let Some(start) = tokens.find("range") {
-            if let Some(paren_start) = tokens[start..].find('(') {
-                let after_paren = &tokens[start + paren_start + 1..];
-                if let Some(paren_end) = find_closing_paren(after_paren) {
-                    let content = &after_paren[..paren_end];
+        if let Some(start) = masked.find("range") {
+            if let Some(paren_start) = masked[start..].find('(') {
+                let open = start + paren_start + 1;
+                if let Some(paren_end) = find_closing_paren(&masked[open..]) {
+                    let content = &masked[open..open + paren_end];
+                    let original_content = &tokens[open..open + paren_end];
 
                     // Parse min = value
                     if let Some(min_pos) = content.find("min") {
@@ -207,7 +237,7 @@ impl ValidatorParser {
                     }
 
                     // Parse message = "..."
-                    constraint.message = self.parse_message_from_content(content);
+                    constraint.message = self.parse_message_from_content(original_content);
                 }
             }
         }
